@@ -484,6 +484,23 @@ fn convert_prom_to_arrow(req: &WriteRequest) -> Result<RecordBatch> {
     Ok(batch)
 }
 
+/// Re-exports of the private parse / convert steps for the external model-checking harness
+/// (only compiled with the `verif-hooks` cargo feature; nothing here changes behaviour).
+#[cfg(feature = "verif-hooks")]
+pub mod verif {
+    use super::{RecordBatch, Result, WriteRequest};
+
+    /// `parse_write_request` exactly as `handle_remote_write` calls it.
+    pub fn parse_write_request(data: &[u8]) -> Result<WriteRequest> {
+        super::parse_write_request(data)
+    }
+
+    /// `convert_prom_to_arrow` exactly as `handle_remote_write` calls it.
+    pub fn convert_prom_to_arrow(req: &WriteRequest) -> Result<RecordBatch> {
+        super::convert_prom_to_arrow(req)
+    }
+}
+
 #[cfg(test)]
 mod tests {
     use super::*;
